@@ -339,6 +339,7 @@ func grpcStatusExtra(t *tr) string {
 	gsSlices(t, &b)
 	// ---- 8. path summaries of the functions that report samples
 	gsPaths(t, &b)
+	grpcstatusR4(t, &b)
 	return b.String()
 }
 
